@@ -349,6 +349,49 @@ fn book_walk(tr: &mut GTracer, book: &Book, reps_per_child: usize) -> usize {
     nodes
 }
 
+/// Odds games: the standard start with one man removed is SUPPLIED to Game::from_board; book lines are
+/// followed as long as they are playable there.  The history then coincides with a book prefix while
+/// some book continuations cannot be played (the piece is missing): the engine must still answer.
+fn odds_book(tr: &mut GTracer, book: &Book, rng: &mut Rng, reps: usize, max_nodes: usize) -> usize {
+    let mut leaves = vec![];
+    book_leaves(book, &mut vec![], &mut leaves);
+    let removed = [6usize, 5, 57, 61, 1, 62, 11, 12, 51, 52, 13, 53]; // g1 f1 b8 f8 b1 g8 d2 e2 d7 e7 f2 f7 (0-based)
+    let mut nodes = 0;
+    for (oi, &sq) in removed.iter().enumerate() {
+        let mut pos = Pos::of_board(&Board::starting_position());
+        pos.b[sq] = 0;
+        let mut seen: BTreeSet<Vec<(u8, u8)>> = BTreeSet::new();
+        // a few random book lines per odds position
+        for _ in 0..4 {
+            if nodes >= max_nodes {
+                return nodes;
+            }
+            let leaf = &leaves[rng.below(leaves.len())];
+            let mut game = Game::from_board(pos.setup(), 1);
+            tr.reset(&game);
+            for i in 0..=leaf.len() {
+                let prefix = leaf[..i].to_vec();
+                if seen.insert(prefix.clone()) || i == 0 {
+                    nodes += 1;
+                    for _ in 0..reps {
+                        if !tr.engine_move(&mut game, true) {
+                            break;
+                        }
+                    }
+                }
+                if i < leaf.len() {
+                    match tr.coords(&mut game, &[leaf[i]]) {
+                        Ok(Some(_)) => tr.toggle(&mut game),
+                        _ => break, // the book move is not playable in the odds game: the line ends here
+                    }
+                }
+            }
+        }
+        let _ = oi;
+    }
+    nodes
+}
+
 /// record-game <out> --scenario typed|shuffle|book|offbook --seed N --games G --plies P
 pub fn main(args: &[String]) {
     let out_path = &args[0];
@@ -385,6 +428,11 @@ pub fn main(args: &[String]) {
             let book = Book::default();
             let reps = arg_u64(args, "--reps", 3) as usize;
             histories = book_walk(&mut tr, &book, reps);
+        }
+        "oddsbook" => {
+            let book = Book::default();
+            let reps = arg_u64(args, "--reps", 4) as usize;
+            histories = odds_book(&mut tr, &book, &mut rng, reps, arg_u64(args, "--max-nodes", 80) as usize);
         }
         "offbook" => {
             // supplied boards and random continuations: the engine must still answer with a legal move
